@@ -57,6 +57,9 @@ def loop_family() -> list[dict]:
     # forward jump over a diamond: a jumps to e, bypassing b, c, d
     fam.append(P("fwd", [S("a", tasks=[T("a.1", "jump", 1, "e")]), S("b", ["a"]), S("c", ["a"]), S("d", ["b", "c"]),
                          S("e", ["d"])]))
+    # two different jump targets: e jumps to the fan-in t first, then to the common ancestor r
+    fam.append(P("twotargets", [S("r"), S("a", ["r"]), S("b0", ["r"]), S("b", ["b0"], tasks=[T("b.1", "poll", 1)]),
+                                S("t", ["a", "b"]), S("e", ["t"], tasks=[T("e.1", "jump2", 2, "t,r")])]))
     fam.append(P("fwdside", [S("a", tasks=[T("a.1", "jump", 1, "d")]), S("b", ["a"]), S("c", ["b"]), S("d", ["c"]),
                              S("y", ["a"])]))
     return fam
@@ -148,7 +151,10 @@ def plan(pid: str, tier: str, seed: int) -> dict:
                                     ("diamond", "cycle2", "firstof", "multitask", "poll", "transient", "fanout")]),
         )
     if pid == "C03":
-        progs = join_family() + random_dags(seed, 6 if quick else 100)
+        # jump programs: "the only exception is the explicit target of a jump" (the bypass flag must be consumed)
+        progs = join_family() + [PR.by_name("selfloop"), PR.by_name("cycle2")] + \
+                [p for p in loop_family() if p["name"] in ("loopfanin", "cyc3", "fwd", "twotargets")] + \
+                random_dags(seed, 6 if quick else 100)
         nseed = 12 if quick else 50
         return dict(
             progs=progs, props=["C03_StartsOnlyWhenAllowed", "C03_ExecOnlyStarted", "C03_NoRunBelowHalt"],
